@@ -140,6 +140,11 @@ func c08Variants(kind env.EndKind) []c08Var {
 		for ek := env.EPlain + 1; ek < env.NErrKinds; ek++ {
 			vs = append(vs, c08Var{RK: env.KRaw, EK: ek}, c08Var{RK: env.KBufio4096, EK: ek})
 		}
+		// errors that say what transports say (and what the string
+		// constants of the tree under test say)
+		for i := range env.ErrTexts {
+			vs = append(vs, c08Var{RK: env.KRaw, EK: env.NErrKinds + env.ErrKind(i)})
+		}
 	}
 	return vs
 }
@@ -171,6 +176,8 @@ func runC08(x *core.Ctx) {
 		bound := bound
 		if fi >= nCorpus {
 			bound -= 2 // the valid corpus V: every cut, 0 (quick) / 1 (thorough) further deviations
+		} else if len(f.B) > 300 {
+			bound-- // frames of hundreds of bytes: every cut, one deviation less
 		}
 		for k := 0; k < len(f.B); k++ {
 			for _, kind := range []env.EndKind{env.EndEOF, env.EndErr} {
